@@ -1569,8 +1569,8 @@ impl<'a> Runtime<'a> {
             return Value::Str(ArenaCow::Owned(result));
         }
 
-        if matches!(val, Value::Array(_)) {
-            // Arrays promoted to persistent via pool.
+        if matches!(val, Value::Array(_) | Value::Host(_)) {
+            // Arrays and host values promoted to persistent via pool.
             let promoted = val.promote(&self.pool, self.frame);
             unsafe { self.frame.reset(frame_offset) };
             return promoted;
